@@ -264,18 +264,35 @@ func sortCase(c *vlib.Ctx, r *vlib.Rand, prim, child *column, asc, childAsc bool
 		what string
 	}
 	var ders []derived
-	filtered := func(col *column, idx []int, what string) (list.AnyList, []int) {
-		res, _ := catchFiltering(col.l, idx)
-		if res != nil {
-			ders = append(ders, derived{col, res, append([]int(nil), idx...), what})
-		}
-		return res, idx
-	}
-
+	var lentIdx []*lentArr[int]
 	failed := false // any finding of this case: the independence epilogue is skipped then
 	fail := func(key, what string, d interface{}) {
 		failed = true
 		c.Fail(key, what, d)
+	}
+	// one call in three hands the index list over as a window of a larger array whose other
+	// elements are no indices of the list; the array must come back as it was
+	filtered := func(col *column, idx []int, what string) (list.AnyList, []int) {
+		arg := idx
+		var li *lentArr[int]
+		if pre, post, lent := lendShape(r); lent && idx != nil && r.Chance(2, 3) {
+			li = lendArr(idx, pre, post, func(j int) int { return col.n + 1000 + j })
+			arg = li.arg()
+			c.Count("filtering_lent_window", 1)
+		}
+		res, _ := catchFiltering(col.l, arg)
+		if li != nil {
+			if msg := li.changed(eqInt, showInt); msg != "" {
+				d := detail(nil)
+				d["step"] = what
+				fail(col.name+".Filtering:writes-callers-slice", what+": Filtering wrote to the caller's index array: "+msg, d)
+			}
+			lentIdx = append(lentIdx, li)
+		}
+		if res != nil {
+			ders = append(ders, derived{col, res, append([]int(nil), idx...), what})
+		}
+		return res, idx
 	}
 
 	// Sorting(asc)
@@ -380,6 +397,75 @@ func sortCase(c *vlib.Ctx, r *vlib.Rand, prim, child *column, asc, childAsc bool
 				sz = res.Size()
 			}
 			fail(prim.name+".Filtering:"+kd, fmt.Sprintf("Filtering(%v) on a list of size %d (backing length %d) did not report the index; it returned %d elements", idx, n, tl, sz), d)
+		} else {
+			// reported: the list is as it was and still usable
+			if msg := prim.unchanged(); msg != "" {
+				fail(prim.name+".Filtering:wrong-value", "a Filtering call that reported an out-of-range index modified the list: "+msg, detail(nil))
+			}
+			if !colUsable(c, r, prim, "Filtering", func() map[string]interface{} { d := detail(nil); d["index_list"] = idx; return d }) {
+				return
+			}
+		}
+	}
+	// a two-level sort whose child is shorter than the primary, or nil: the tie-break needs a
+	// child element that does not exist, which is reported (unless no tie reaches it); either
+	// way both lists are as they were and usable afterwards
+	if n >= 1 && !tooManyLeaks(prim.name, "SortingAnyList") {
+		var short *column
+		var childL list.AnyList
+		desc := "nil"
+		if !r.Chance(1, 4) {
+			short = genColumn(int(child.typ)-1, r, r.Intn(n), 3, false, 0)
+			childL, desc = short.l, fmt.Sprintf("%s of %d elements %v", short.name, short.n, short.all())
+		}
+		det3 := func(perm []int) map[string]interface{} {
+			d := detail(perm)
+			d["child_type"], d["child"] = "short or nil child", desc
+			return d
+		}
+		var perm3 []int
+		p := vlib.Catch(func() { perm3 = prim.l.SortingAnyList(asc, childL, childAsc) })
+		c.Count("sorting_short_or_nil_child_calls", 1)
+		if msg := prim.unchanged(); msg != "" {
+			fail(prim.name+".Sorting:wrong-value", "a two-level sort with a short or nil child modified the list: "+msg, det3(nil))
+		}
+		if short != nil {
+			if msg := short.unchanged(); msg != "" {
+				fail(short.name+".Sorting:wrong-value", "a two-level sort with a short child modified the child list: "+msg, det3(nil))
+			}
+		}
+		if p != nil {
+			c.Count("sorting_child_reports", 1)
+			if !colUsable(c, r, prim, "SortingAnyList", func() map[string]interface{} { return det3(nil) }) {
+				return
+			}
+			if short != nil && !colUsable(c, r, short, "SortingAnyList", func() map[string]interface{} { return det3(nil) }) {
+				return
+			}
+		} else if msg := checkPermutation(perm3, n); msg != "" {
+			fail(prim.name+".SortingAnyList:not-permutation", msg, det3(perm3))
+		} else {
+			for q := 0; q+1 < n; q++ {
+				a, b := perm3[q], perm3[q+1]
+				pc := prim.cmp(a, b)
+				if !asc {
+					pc = -pc
+				}
+				if pc > 0 {
+					fail(prim.name+".SortingAnyList:primary-order", fmt.Sprintf("positions %d,%d: primary %s precedes %s although %s was requested", q, q+1, prim.show(a), prim.show(b), dirName(asc)), det3(perm3))
+					break
+				}
+				if pc == 0 && short != nil && a < short.n && b < short.n && !short.tie53(a, b) {
+					cc := short.cmp(a, b)
+					if !childAsc {
+						cc = -cc
+					}
+					if cc > 0 {
+						fail(prim.name+".SortingAnyList:child-order", fmt.Sprintf("positions %d,%d: primaries tie (%s), child %s precedes %s although child order %s was requested", q, q+1, prim.show(a), short.show(a), short.show(b), dirName(childAsc)), det3(perm3))
+						break
+					}
+				}
+			}
 		}
 	}
 	// independence of sources, derived lists and index slices (this changes the lists, so it
@@ -416,7 +502,12 @@ func sortCase(c *vlib.Ctx, r *vlib.Rand, prim, child *column, asc, childAsc bool
 		for j := range perm2 {
 			perm2[j] = -1 - j
 		}
-		ok = stillOK("after overwriting the index slices returned by Sorting and SortingAnyList", 0)
+		for _, li := range lentIdx {
+			for j := range li.arr {
+				li.arr[j] = -1 - j
+			}
+		}
+		ok = stillOK("after overwriting the index slices returned by Sorting and SortingAnyList (and the arrays that index lists were windows of)", 0)
 		// every derived list is overwritten in turn
 		for j := 0; ok && j < len(ders); j++ {
 			ders[j].col.scribbleIn(ders[j].res, r)
@@ -457,4 +548,31 @@ func catchFiltering(l list.AnyList, idx []int) (list.AnyList, []int) {
 		return nil, idx
 	}
 	return res, idx
+}
+
+// colUsable: col (or a call that was given col) just reported an error in `method` by
+// panicking; a sort of col made from a follow-up goroutine returns an ordering permutation.
+func colUsable(c *vlib.Ctx, r *vlib.Rand, col *column, method string, detail func() map[string]interface{}) bool {
+	asc := r.Bool()
+	var perm []int
+	what := fmt.Sprintf("Sorting(%v) on the %s", asc, col.name)
+	ok, pv := followUp(c, col.name, method, what, func() { perm = col.l.Sorting(asc) }, detail)
+	if !ok {
+		return false
+	}
+	if pv != nil {
+		c.Fail(col.name+".Sorting:panic", fmt.Sprintf("%s, the call after %s reported an error, panicked: %v", what, method, pv), detail())
+		return false
+	}
+	var st orderStats
+	if msg := checkPermutation(perm, col.n); msg != "" {
+		c.Fail(col.name+".Sorting:not-permutation", fmt.Sprintf("%s, the call after %s reported an error: %s", what, method, msg), detail())
+		return false
+	}
+	if kd, _, msg := checkOrder(perm, col, asc, nil, false, &st); kd != "" {
+		c.Fail(col.name+".Sorting:"+kd, fmt.Sprintf("%s, the call after %s reported an error: %s", what, method, msg), detail())
+		return false
+	}
+	c.Count("followup_sorts_checked", 1)
+	return true
 }
